@@ -112,6 +112,7 @@ type GenesisOptions struct {
 	RtFunded           bool     // account 1 holds a 700-unit delegation to the runtime's own account (needed for runtime governance)
 	RtRoundTimeout     int64    // executor round timeout in blocks (default 5)
 	RtTwoVersions      bool     // the runtime has a second deployment (version 1.0.0) valid from epoch 3; node 1 is registered for the old version only
+	Prefix             []string // letter names executed (one block each) before the explored history starts: part of the initial state (interpreted by the engines, not by Genesis)
 	Vault              bool     // a vault (creator account 0, id 1) with balance 100 exists at genesis: admin {a0,a1} threshold 1, suspend {a1}, withdraw policy 60 per 10 blocks for account 1
 
 }
